@@ -5,4 +5,5 @@ CONSTANTS
   Stride = 7
   Pairs = 40
   Randoms = 60
-  NBombs = 3
+  NBombs = 15
+  RefStride = 1
